@@ -38,8 +38,10 @@ def AW.setPts (w : AW) (f : Nat) (pts : List ATriple) : AW :=
 def AW.setDecomp (w : AW) (f : Nat) (d : Dict Nat) : AW :=
   { w with funs := w.funs.modify f (fun fr => { fr with decomp := d }) }
 
-/-- `_is_already_evaluated_on_point` -/
-def lookupTriple (pts : List ATriple) (x : PDict) : Option ATriple := pts.find? (fun t => Dict.eqv t.x x)
+/-- `_is_already_evaluated_on_point`: stored points are pruned, the incoming dictionary is pruned
+before the comparison -/
+def lookupTriple (pts : List ATriple) (x : PDict) : Option ATriple :=
+  pts.find? (fun t => Dict.eqv t.x (Dict.prune x))
 
 /-- append a triplet (its three dictionaries pruned, as `add_point` does in place) -/
 def AW.record (w : AW) (f : Nat) (t : ATriple) : AW :=
@@ -120,6 +122,9 @@ def oracleA (w : AW) (f : Nat) (x : PDict) : AW × PDict × EDict :=
   let fr := w.getF f
   if fr.isLeaf then oracleLeafA w f x
   else
+    -- zero / cancelling weights are removed before anything is classified
+    let w := w.setDecomp f (Dict.prune fr.decomp)
+    let fr := w.getF f
     let assoc := lookupTriple fr.pts x
     match assoc, fr.reuse with
     | some t, true => (w, t.g, t.v)
